@@ -49,6 +49,14 @@ CLAIMS.update({
    design="3/C10"),
 })
 
+CLAIMS.update({
+ 'C12': dict(
+   text="Exhaustive chunking enumeration on the real h2::Codec (unstable API) over the simulated transport. Write side: frame sequences (all eight emittable types, CONTINUATION splitting, payload sizes around the chain thresholds 256/1024 and the frame limit, vectored and plain writes, limits 16384/16385/2^24-1) are buffered and flushed under EVERY chunking for outputs <= 17 octets and under every chunking with <= 2 (quick) / 3 (thorough) cuts or Pendings (every offset up to 300 octets, structural offsets beyond) for longer ones; bytes must equal the whole-write output, which is parsed by the independent RFC 9113 parser + reference HPACK decoder and compared with the submitted frames and the size limit. Read side: reference-serialised frames of all ten types (padding, priority, unknown types/flags/settings, zero-length CONTINUATION) under every read chunking with <= k deviations must parse to the RFC reading. Oversize heads must yield FRAME_SIZE_ERROR after nine octets; T1 runs check every frame of both endpoints against the peer's acknowledged MAX_FRAME_SIZE.",
+   note="Trusted: h2wire serializer/parser. h2 never emits PRIORITY (unimplemented!), covered on the parse side only.",
+   tech="exhaustive enumeration of I/O chunkings (all compositions for short outputs, deviation-bounded for long ones) against a reference codec",
+   design="3/C12"),
+})
+
 NOT_YET = "check not built yet (work in progress; DESIGN.md section 3 describes the planned harness)"
 NA = {}
 
